@@ -36,10 +36,14 @@ const (
 	garbage
 	invalid
 	nilProf
+	idle // fetched and parsed fine, but without samples (an idle process): its comment still belongs to the merge
 	nKinds
 )
 
-var kindName = []string{"ok", "fetch-error", "garbage", "invalid-profile", "nil-profile"}
+var kindName = []string{"ok", "fetch-error", "garbage", "invalid-profile", "nil-profile", "ok-without-samples"}
+
+// good reports whether a fetch of this kind yields a profile.
+func good(k int) bool { return k == ok || k == idle }
 
 // srcProfile builds the profile of source i: a stack shared by all sources
 // (weight 1), a stack of its own (weight i+2), and a comment naming it.
@@ -132,6 +136,10 @@ func run(s scenario, order []int) observation {
 			}
 		case nilProf:
 			f.Nil[n] = true
+		case idle:
+			a := srcProfile(pi)
+			a.Stacks = nil
+			f.Data[n] = drive.Encode(ap.Concretize(a, ap.Opts{}))
 		}
 	}
 	var obs observation
@@ -175,25 +183,27 @@ func expected(s scenario) expect {
 	srcs, bases := names(s)
 	e := expect{values: map[string]int64{}}
 	nok, nbok := 0, 0
-	add := func(pi int, sign int64) {
+	add := func(pi int, sign int64, kind int) {
 		a := srcProfile(pi)
-		for _, st := range a.Stacks {
-			e.values[st.Locs[0].Lines[0].Func] += sign * st.Values[0]
+		if kind != idle {
+			for _, st := range a.Stacks {
+				e.values[st.Locs[0].Lines[0].Func] += sign * st.Values[0]
+			}
 		}
 		e.comments = append(e.comments, a.Comments...)
 	}
 	for i := range srcs {
-		if s.Fail[i] == ok {
+		if good(s.Fail[i]) {
 			nok++
-			add(i, 1)
+			add(i, 1, s.Fail[i])
 		} else {
 			e.errFor = append(e.errFor, srcs[i])
 		}
 	}
 	for i := range bases {
-		if s.Fail[s.NSrc+i] == ok {
+		if good(s.Fail[s.NSrc+i]) {
 			nbok++
-			add(100+i, -1)
+			add(100+i, -1, s.Fail[s.NSrc+i])
 		} else {
 			e.errFor = append(e.errFor, bases[i])
 		}
